@@ -8,6 +8,17 @@ ROOT = os.path.dirname(os.path.dirname(os.path.abspath(__file__)))
 props = [json.loads(l) for l in open(os.path.join(ROOT, "properties.jsonl"))]
 
 CHECKS = {
+    "C07": dict(
+        text="Packer.tla models the backup pipeline (three dedup filters per packer, writer actors, shared indexer) in all "
+             "interleavings: with typed identity nothing submitted is dropped, no orphan packs, termination; with untyped identity "
+             "a tree/data id collision loses a blob. Real pairs of consecutive backups related by edit scripts are run under two "
+             "Rabin parameter sets and a fixed-size chunker; what the second backup uploads is read off the storage log with the "
+             "independent decoder and DedupTrace.tla checks NoNewBlobs, ExactDelta for data and trees, SnapshotChunks, Shift and "
+             "TypedBothKept on real collision scenarios (file = serialisation of a sibling directory).",
+        note="Expected chunk ids come from the repository's own chunk iterator applied to the sources (its cut function is validated by "
+             "C06). In-run duplicate blobs are tolerated per the statement (dedup is promised after the index is reloaded).",
+        technique="TLC model of the packer pipeline + TLC trace validation of uploads decoded from the storage log against set equations",
+        design="4/C07"),
     "C19": dict(
         text="Cache.tla models a client working through the cache, one working directly on the repository and planted cache "
              "entries; TLC proves AfterList and SameResults for all histories <= 5 operations over 3 files (and that a cache not "
